@@ -1,6 +1,6 @@
 (* Correspondence for C04: run Model/Transforms.v on the inputs given to the implementation (plus the recorded
    oracle answers) and compare with the implementation's outputs: bit-exact on Z, toleranced on Q. *)
-From Coq Require Import List Arith ZArith QArith Qabs Bool.
+From Coq Require Import List Arith ZArith QArith Qabs Qround Bool.
 From TLV Require Import Base.Shape Base.PyList Base.Tensor Base.Ops Model.Transforms Corr.Common.
 Import ListNotations.
 
@@ -85,7 +85,13 @@ Inductive body :=
             (full : list bool) (expected : list (mat Q * option (mat Q)))
 | ZModeDotApi (is_class copy : bool) (w : option (list Z)) (fs : list (mat Z)) (x : operand (F:=Z)) (mode : nat) (keep_dim : bool)
               (expected : res (list Z * list (mat Z)))
-| ZFlipApi (is_class : bool) (w : option (list Z)) (fs : list (mat Z)) (mode : nat) (expected : res (list Z * list (mat Z))).
+| ZFlipApi (is_class : bool) (w : option (list Z)) (fs : list (mat Z)) (mode : nat) (expected : res (list Z * list (mat Z)))
+| ZPermList (ps : list (list nat)) (ts : list (list Z * list (mat Z))) (expected : res (list (list Z * list (mat Z))))
+| ZTTMDense (cores : list (tensor Z)) (expected : tensor Z)
+| ZModeDotZ (w : list Z) (fs : list (mat Z)) (x : operand (F:=Z)) (mode : Z) (keep_dim : bool) (expected : res (list Z * list (mat Z)))
+| ZTkDotZ (core : tensor Z) (fs : list (mat Z)) (x : operand (F:=Z)) (mode : Z) (keep_dim : bool) (expected : res (tensor Z * list (mat Z)))
+| ZFlipZ (w : list Z) (fs : list (mat Z)) (mode : Z) (expected : res (list Z * list (mat Z)))
+| QAlign (norm_t : bool) (rw : list Q) (rfs : list (mat Q)) (tw : list Q) (tfs : list (mat Q)) (tA tB : list (list Q)) (perm : list nat).
 
 Definition agree_body (b : body) : bool :=
   match b with
@@ -107,19 +113,34 @@ Definition agree_body (b : body) : bool :=
   | ZPf2Slice w A B C Ps i e => zmat_eqb (pf2_slice Zops w A B C Ps i) e
   | ZDecomp w A B C Ps Ls e =>
       match svd_decompress Zops w A B C Ps Ls, e with
-      | Ok (_, _, ps), Ok e' => list_eqb zmat_eqb ps e'
+      | Ok (_, _, ps), Ok e' => list_eqb zmat_eqb ps e' && forallb (orthob Zops Z.eqb (length w)) e'
       | Err, Err => true
       | _, _ => false
       end
   | QFromCP Qm Rm w A B C e =>
-      qmat_close (matmul Qops Qm Rm) B &&
+      qmat_close (matmul Qops Qm Rm) B && orthob Qops (qclose ATOL RTOL) (length w) Qm &&
+      forallb (orthob Qops (qclose ATOL RTOL) (length w)) (snd e) &&
       (let '(w', fs', ps') := from_cp Qm Rm w A B C in
        let '(ew, efs, eps) := e in
        qv_close w' ew && list_eqb qmat_close fs' efs && list_eqb qmat_close ps' eps)
   | QCompress slices thr mr tapes full e =>
-      svds_okb full slices tapes && list_eqb recon_close (svd_compress Qops slices thr mr tapes) e
+      svds_okb full slices tapes && list_eqb recon_close (svd_compress Qops slices thr mr tapes) e &&
+      forallb (fun p => match snd p with Some L => orthob Qops (qclose ATOL RTOL) (ncols L) L | None => true end) e
   | ZModeDotApi cl cp w fs x m kd e => res_eqb zcp_dense_eqb (cp_mode_dot_api Zops cl cp w fs x m kd) e
   | ZFlipApi cl w fs m e => res_eqb zcp_eqb (cp_flip_sign_api Zops cl (col_sum Zops) w fs m) e
+  | ZPermList ps ts e => res_eqb (list_eqb zcp_eqb) (cp_permute_list Zops ps ts) e
+  | ZTTMDense cores e => zt_eqb (ttm_to_tensor Zops cores) e
+  | ZModeDotZ w fs x m kd e => res_eqb zcp_dense_eqb (cp_mode_dot_z Zops w fs x m kd) e
+  | ZTkDotZ core fs x m kd e => res_eqb ztk_dense_eqb (tucker_mode_dot_z Zops core fs x m kd) e
+  | ZFlipZ w fs m e => res_eqb zcp_eqb (cp_flip_sign_z Zops (col_sum Zops) w fs m) e
+  | QAlign nt rw rfs tw tfs tA tB perm =>
+      let A := norm_inputs Qops rw rfs in
+      let B := if nt then norm_inputs Qops tw tfs else tfs in
+      tape_okb (length rw) tA A && tape_okb (length rw) tB B &&
+      (let n := length rw in
+       (* congruences in [0,1] rounded to multiples of 2^-40 (error n * 2^-40 << the tolerance 2e-9): the search runs on small integers *)
+       let Mx := map (fun i => map (fun j => Qfloor (congr_entry Qops tA tB A B i j * inject_Z (2 ^ 40))) (seq 0 n)) (seq 0 n) in
+       is_optimalb Zops 2200%Z n (fun i j => nth j (nth i Mx []) 0%Z) perm)
   end.
 
 Definition case := (nat * body)%type.
